@@ -25,6 +25,7 @@ import (
 
 	"google.golang.org/grpc"
 
+	"github.com/ozontech/seq-db/conf"
 	"github.com/ozontech/seq-db/consts"
 	"github.com/ozontech/seq-db/fracmanager"
 	"github.com/ozontech/seq-db/mappingprovider"
@@ -287,6 +288,11 @@ func runProxyReq(root, line string) (resp apiResp) {
 	ing := search.NewIngestor(search.Config{HotStores: &stores.Stores{Shards: hosts}, ShuffleReplicas: shuffle}, clients)
 	sr := &search.SearchRequest{Q: []byte(queryText(m["q"])), Offset: int(atoi64(m["offset"])), Size: int(atoi64(m["size"])), Interval: seq.MID(atou(m["interval"])),
 		From: seq.MID(atou(m["from"])), To: seq.MID(atou(m["to"])), WithTotal: m["wt"] == "1", ShouldFetch: false, Order: seq.DocsOrder(atoi(m["order"]))}
+	if m["maxreq"] != "" && m["maxreq"] != "0" { // --max-search-docs: limits fetch/export sizes, must not touch what a store is asked for
+		old := conf.MaxRequestedDocuments
+		conf.MaxRequestedDocuments = atoi(m["maxreq"])
+		defer func() { conf.MaxRequestedDocuments = old }()
+	}
 	func() {
 		defer func() {
 			if r := recover(); r != nil {
@@ -428,9 +434,13 @@ func genAPI(g gen, o vh.Opts) []string {
 			if g.r.Chance(1, 3) { // a production setting no test uses: the split layout may exceed it on some store
 				maxhits = g.r.Range(1, 3)
 			}
-			lines = append(lines, fmt.Sprintf("proxyreq %s shards=%s shuffle=%s q=%s from=%d to=%d size=%d offset=%d interval=%d wt=%s order=%d per=%d maxhits=%d",
+			maxreq := 0
+			if maxhits == 0 && g.r.Chance(1, 3) { // a small --max-search-docs: pages ending behind it must still be complete
+				maxreq = g.r.Range(1, 4)
+			}
+			lines = append(lines, fmt.Sprintf("proxyreq %s shards=%s shuffle=%s q=%s from=%d to=%d size=%d offset=%d interval=%d wt=%s order=%d per=%d maxhits=%d maxreq=%d",
 				corp, strings.Join(sh, ","), b(g.r.Bool()), []string{"a", "*"}[g.r.Intn(2)], from, to, size, offset,
-				[]uint64{0, 0, 1, 4, 1000, 18446744073709551615}[g.r.Intn(6)], b(g.r.Bool()), []int{0, 1, 1, 0, 2}[g.r.Intn(5)], g.r.Range(1, 3), maxhits))
+				[]uint64{0, 0, 1, 4, 1000, 18446744073709551615}[g.r.Intn(6)], b(g.r.Bool()), []int{0, 1, 1, 0, 2}[g.r.Intn(5)], g.r.Range(1, 3), maxhits, maxreq))
 		}
 	}
 	return lines
@@ -479,14 +489,16 @@ func handleAPI(line string, raw []byte, orc *vh.Oracle) {
 			lo, hi := min(off, len(match)), min(off+size, len(match))
 			want := fmtIDs(match[lo:hi])
 			p := strings.Split(strings.Fields(impl)[1], "/")
-			apiOracle.Case(line, m["maxhits"] != "0", "maxhits="+m["maxhits"])
+			apiOracle.Case(line, m["maxhits"] != "0" || (m["maxreq"] != "" && m["maxreq"] != "0"), "maxhits="+m["maxhits"], "maxreq="+m["maxreq"])
 			if p[0] != want || (m["wt"] == "1" && p[1] != fmt.Sprint(len(match))) {
 				class, site := "page-differs-from-single-list-real-stores", "proxy/search/ingestor.go:Search"
 				if m["maxhits"] != "0" {
 					class, site = "silently-short-answer-when-a-store-refuses", "proxy/search/ingestor.go:searchShard"
+				} else if m["maxreq"] != "" && m["maxreq"] != "0" {
+					class, site = "page-short-behind-max-requested-documents", "proxy/search/search_request.go:GetAPISearchRequest"
 				}
 				apiRep.Violate(vh.Violation{Site: site, Class: class,
-					What: fmt.Sprintf("MaxFractionHits=%s: the proxy reports success with ids %s total %s; all matching documents: page %s, total %d", m["maxhits"], p[0], p[1], want, len(match)),
+					What: fmt.Sprintf("MaxFractionHits=%s max-search-docs=" + m["maxreq"] + ": the proxy reports success with ids %s total %s; all matching documents: page %s, total %d", m["maxhits"], p[0], p[1], want, len(match)),
 					Replay: []string{line}})
 			}
 		}
@@ -652,6 +664,97 @@ func genHotCold(g gen, o vh.Opts) []string {
 			gs = append(gs, fmt.Sprint(g.r.Range(1, 4)))
 		}
 		lines = append(lines, fmt.Sprintf("syshotcold groups=%s evict=%d", strings.Join(gs, ","), g.r.Range(1, k-1)))
+	}
+	return lines
+}
+
+// ---------------------------------------------------------------- pages behind the 100000th hit (scripted stores)
+// proxybig counts=<n,n,...> offset=<o> size=<s> desc=<0|1> : every shard is a scripted store holding `n` synthetic ids and
+// answering as the store contract says (its first Size+Offset ids in the requested order, total = n); the real proxy must
+// return the window [offset, offset+size) of the merged list - with the DEFAULT conf.MaxRequestedDocuments (100000).
+
+type bigStore struct {
+	pb.StoreApiClient
+	ids []seq.ID // in descending order
+}
+
+func (s *bigStore) Search(_ context.Context, in *pb.SearchRequest, _ ...grpc.CallOption) (*pb.SearchResponse, error) {
+	n := int(in.Size + in.Offset)
+	n = max(0, min(n, len(s.ids)))
+	buf := make([]pb.SearchResponse_IdWithHint, n)
+	idb := make([]pb.SearchResponse_Id, n)
+	out := make([]*pb.SearchResponse_IdWithHint, n)
+	asc := in.Order == pb.Order_ORDER_ASC
+	for i := 0; i < n; i++ {
+		id := s.ids[i]
+		if asc {
+			id = s.ids[len(s.ids)-1-i]
+		}
+		idb[i] = pb.SearchResponse_Id{Mid: uint64(id.MID), Rid: uint64(id.RID)}
+		buf[i].Id = &idb[i]
+		out[i] = &buf[i]
+	}
+	return &pb.SearchResponse{IdSources: out, Total: uint64(len(s.ids)), Histogram: map[uint64]uint64{}}, nil
+}
+
+func runProxyBig(line string) (got, want string) {
+	m := kv(strings.Fields(line)[1:])
+	clients := map[string]pb.StoreApiClient{}
+	var hosts [][]string
+	var all []seq.ID
+	next := uint64(10_000_000)
+	for i, c := range splitList(m["counts"], ",") {
+		st := &bigStore{}
+		for j := 0; j < atoi(c); j++ { // shard i owns a contiguous, leading block of the order
+			st.ids = append(st.ids, seq.ID{MID: seq.MID(next), RID: seq.RID(i)})
+			next--
+		}
+		all = append(all, st.ids...)
+		h := fmt.Sprintf("big%d", i)
+		clients[h] = st
+		hosts = append(hosts, []string{h})
+	}
+	desc := m["desc"] == "1"
+	if !desc {
+		for i, j := 0, len(all)-1; i < j; i, j = i+1, j-1 {
+			all[i], all[j] = all[j], all[i]
+		}
+	}
+	off, size := atoi(m["offset"]), atoi(m["size"])
+	lo, hi := min(off, len(all)), min(off+size, len(all))
+	want = fmt.Sprintf("%d ids %s total %d", hi-lo, fmtIDs(all[lo:hi]), len(all))
+	ing := search.NewIngestor(search.Config{HotStores: &stores.Stores{Shards: hosts}}, clients)
+	sr := &search.SearchRequest{Q: []byte("service:a"), Offset: off, Size: size, From: 0, To: seq.MID(1 << 62), WithTotal: true, Order: order(desc)}
+	qpr, _, _, err := ing.Search(context.Background(), sr, nil)
+	if err != nil {
+		return "err", want
+	}
+	return fmt.Sprintf("%d ids %s total %d", len(qpr.IDs), fmtIDs(qpr.IDs.IDs()), qpr.Total), want
+}
+
+func runProxyBigCases(orc *vh.Oracle, rep *vh.Report, lines []string) {
+	for _, line := range lines {
+		got, want := runProxyBig(line)
+		orc.Case(line, true, "behind-100000")
+		if got != want {
+			if len(got) > 300 {
+				got = got[:300] + "..."
+			}
+			if len(want) > 300 {
+				want = want[:300] + "..."
+			}
+			rep.Violate(vh.Violation{Site: "proxy/search/search_request.go:GetAPISearchRequest", Class: "page-short-behind-max-requested-documents",
+				What: fmt.Sprintf("page of the merged list: %s ; proxy: %s", want, got), Replay: []string{line}})
+		}
+	}
+}
+
+func genProxyBig(g gen, o vh.Opts) []string {
+	var lines []string
+	for _, counts := range []string{"150000", "120000,30000", "30000,120000"} {
+		for i := 0; i < o.Pick(2, 6); i++ {
+			lines = append(lines, fmt.Sprintf("proxybig counts=%s offset=%d size=%d desc=%s", counts, 99990+g.r.Intn(10011), []int{5, 20, 50}[g.r.Intn(3)], b(g.r.Bool())))
+		}
 	}
 	return lines
 }
